@@ -150,6 +150,7 @@ class CONSEngine(Engine):
 
                 def done(result, rec=rec):
                     rec["done"] = self.evseq
+                    rec["ok"] = not hasattr(result, "getTraceback")  # Failure or value
                     return result
 
                 d.addBoth(done)
@@ -1219,18 +1220,20 @@ class CONSEngine(Engine):
         f = run["watch"].value
         if not f.check(BrokerResponseError) or getattr(f.value, "errno", None) in (None, 0, 1):
             return
-        mine = [r for r in self._creqs if r["run"] is run and r["inc"] == self.incarnation]
+        # the consumer's attempts are its calls of the client's fetch-path methods (observed on the wrapped public methods), whether or not
+        # a request was written for them: an attempt that fails while routing is being resolved counts like any other
+        mine = [x for x in self.ccalls if x.get("inc") == self.incarnation and x["evseq"] >= run["evseq"]
+                and x["api"] in ("send_fetch_request", "send_offset_request", "send_offset_fetch_request")]
         k = 0
-        for r in reversed(mine):
-            oc = r.get("outcome")
-            if oc is None or not r.get("timely", True):
-                return  # a request of unknown fate in the chain: no verdict
-            if oc == 0:
+        for x in reversed(mine):
+            if x.get("done") is None:
+                return  # still in progress: no verdict
+            if x.get("ok"):
                 break
             k += 1
         else:
-            return  # no request of this run known to have succeeded before the chain
-        if k == 0 or mine[-1].get("outcome") != f.value.errno:
+            return  # no attempt of this run known to have succeeded before the chain
+        if k == 0:
             return
         # (afkak counts the successful request that precedes the failures as the first attempt of the new series: after a success the
         # unchanged tree gives up at the (N-1)th consecutive failure, which C14's "no more than N" allows; fewer than that is a budget
